@@ -169,6 +169,12 @@ func entropy(t *rapid.T) (io.Reader, func() io.Reader, string) {
 		return secec.RFC6979SHA256(), func() io.Reader { return secec.RFC6979SHA256() }, "rfc6979"
 	}
 	rd := gen.Reader(t, 32+gen.Sampled([]int{0, 0, 1, 8, 31, 32, 33, 64, 100}).Draw(t, "extra"), "rng")
+	if rapid.IntRange(0, 4).Draw(t, "process-default") == 0 {
+		// the caller passes nil: the entropy is what the process-wide source (crypto/rand.Reader) yields,
+		// here the same scripted stream
+		t.Cleanup(gen.SetProcessEntropy(rd))
+		return nil, func() io.Reader { t.Cleanup(gen.SetProcessEntropy(rd.Clone())); return nil }, "process-default:" + rd.Desc
+	}
 	return rd, func() io.Reader { return rd.Clone() }, "reader:" + rd.Desc
 }
 
@@ -199,6 +205,20 @@ func propSignRaw(t *rapid.T) {
 		t.Fatalf("SignRaw failed for an admissible digest: %v", err)
 	}
 	ri, si := lib.ScInt(r), lib.ScInt(s)
+	// other uses of the signer's public key object in between (a peer runs ECDH against it, it is encoded,
+	// compared, converted) must leave it the key the signature verifies under
+	switch gen.Sampled([]string{"none", "none", "peer-ecdh", "encode", "schnorr-view", "equal"}).Draw(t, "pub-use") {
+	case "peer-ecdh":
+		if _, err := lib.PrivKey(gen.NonZero256(t, ref.N, "peer")).ECDH(key.PublicKey()); err != nil {
+			t.Fatalf("ECDH against the signer's public key failed: %v", err)
+		}
+	case "encode":
+		_, _, _ = key.PublicKey().Bytes(), key.PublicKey().CompressedBytes(), key.PublicKey().ASN1Bytes()
+	case "schnorr-view":
+		_ = bitcoin.NewSchnorrPublicKeyFromECDSA(key.PublicKey())
+	case "equal":
+		_ = key.PublicKey().Equal(lib.PubKey(ref.G()))
+	}
 	// the signature verifies under the signing key's own public half (the very object, not a re-import)
 	if !key.PublicKey().VerifyRaw(digest, r, s) || !bytes.Equal(key.PublicKey().Point().UncompressedBytes(), ref.BaseMul(d).Uncompressed()) {
 		t.Fatalf("SignRaw output does not verify under the signing key's PublicKey() object (d=%x)", d)
